@@ -821,6 +821,17 @@ func c18Gen(r *Rand, tier string) []string {
 		}
 	}
 
+	// numeric abbreviations read by value: zero-padded / very long hours after `GMT+` and `+` (round 4d)
+	no := 400
+	if tier == "thorough" {
+		no = 20000
+	}
+	for i := 0; i < no; i++ {
+		if c := c18OffsetCase(r); c != "" {
+			add(c)
+		}
+	}
+
 	// reference calendar against Go's calendar, no rare code involved
 	nc := 1500
 	if tier == "thorough" {
@@ -879,6 +890,8 @@ func c18DurSecs(r *Rand) string {
 		return strconv.FormatInt(Pick(r, []int64{9223372037, -9223372037, 9223372038, 18446744074, 1 << 62, -(1 << 62), 1<<63 - 1, -1 << 63, 10000000000, 27670116110, 9223372036854775}), 10)
 	case 5:
 		return strconv.FormatInt(int64(r.Intn(100000)), 10)
+	case 6: // the product wraps into the sub-second range: ns / µs / ms units of Duration.String
+		return c18SubSecondSecs(r)
 	}
 	v := int64(r.U64() % 9223372036)
 	if r.Bool() {
@@ -1202,6 +1215,16 @@ func c18Stats(cases []string) map[string]int {
 			continue
 		case "zn":
 			st["zn.texts"] += len(UnHexListS(f[5]))
+			for _, t := range UnHexListS(f[5]) {
+				c18OffStats(t, st)
+			}
+			continue
+		case "durf":
+			if v, err := strconv.ParseInt(string(UnHex(f[1])), 10, 64); err == nil {
+				if d := time.Duration(v) * time.Second; d != 0 && d > -time.Second && d < time.Second {
+					st["durf.sub-second"]++
+				}
+			}
 			continue
 		case "zone", "ztime":
 			if f[0] == "zone" {
@@ -1210,6 +1233,9 @@ func c18Stats(cases []string) map[string]int {
 			continue
 		case "fmt", "attr", "time":
 			zones[f[3]] = true
+			if f[0] == "time" {
+				c18OffStats(string(UnHex(f[5])), st)
+			}
 			if f[4] == "0" {
 				st["zone.rejected"]++
 			}
